@@ -165,7 +165,7 @@ func genTitleDoc(r *RNG) string { return genTitle(r).build("") }
 
 func init() {
 	register(&Prop{
-		ID: "C15",
+		ID:   "C15",
 		Rule: "titles of 1-4 parts of 1-45 unique tokens joined by 14 separators (| - / \\ > raquo colon variants, mdash, middot, comma; entities in bytes) x first <h1> in {none, unrelated, = title, = part before ' - '} x <h2> x markup title in {none, OpenGraph, schema.org, IE}. Clauses: (1) a markup title wins; (2) otherwise Title is the <title> text, a non-empty contiguous part of it, or the first <h1> text; (3) a 15..150 character <title> without any separator character is returned exactly; (4) two-step: the page is rebuilt with an extra <h1>/<h2>/<p>/<div> block whose text is exactly the Title learnt in step one, and if Title is unchanged none of that block's words may occur in Text or HTML. Non-trivial = a page with a non-empty title; distinct = distinct (title shape, which clause decided, block kind).",
 		Assumptions: []string{
 			"'separator pattern' is read conservatively for clause 3: the title contains none of the characters | - / \\ > raquo :",
